@@ -135,6 +135,78 @@ def run(rep: Report, tier: str) -> None:  # noqa: C901
     from sa.checks.c19 import period_limits as _pl_g
     from sa.checks.c21 import spelling_grid as _sg_g
     _sg_g(rep, "R04.10", {k.lower(): v for k, v in _sqlx_g.load_macros(P).items()}, _pl_g(P))
+    # ---- R04.11 an alias names the operand it is attached to in THIS join (whatever an earlier statement registered under the same alias) ----
+    rep.rule("R04.11", "Alias.validate evaluated with the alias given as text and as a dataset registered by an earlier join under the same alias: the aliased dataset always has "
+                       "the components of the operand the alias is attached to")
+    from sa import structmodel as _sm11
+    from sa.e6 import ClassVal as _CV11, Interp as _I11, Raised as _R11, Unmodelled as _U11
+    M11 = _sm11.Model(P)
+    fa = P.func("vtlengine.Operators.General.Alias.validate")
+    n11 = 0
+    for lab, right in (("text", "d1"), ("registered-by-an-earlier-join", M11.ds("d1", ["Id_1"], ["Me_1", "Me_2"]))):
+        left = M11.ds("DS_3", ["Id_1", "Id_2"], ["Me_9"])
+        try:
+            got = _I11(P, externals={"isinstance": _sm11._isinstance, "Dataset": M11.mk_dataset}).call(fa, {"left_operand": left, "right_operand": right}, bound_cls=_CV11("vtlengine.Operators.General.Alias"))
+            out = (getattr(got, "name", None), sorted(getattr(got, "components", {})))
+        except _R11 as r:
+            out = ("<raises>", [getattr(r.exc, "code", None)])
+        except _U11 as e:
+            raise AnalysisError(f"R04.11: Alias.validate outside the evaluator's language: {e}")
+        n11 += 1
+        rep.instance("R04.11", f"alias/{lab}", nontrivial=True, sample={"alias": lab, "result": list(out)})
+        if out != ("d1", sorted(left.components)):
+            rep.add(Finding("R04.11", f"R04.11/alias/{lab}", fa.module.rel, fa.node.lineno, fa.qualname,
+                            f"`DS_3 as d1` with the alias given as {lab.replace('-', ' ')}: the aliased dataset is {out}, expected ('d1', {sorted(left.components)}): a later join that re-uses "
+                            f"an alias for another dataset is analysed on the structure of the dataset aliased first, and the components of its real operands are dropped from the result"))
+    rep.floor("R04.11 alias forms", n11, 2)
+    # ---- R04.12 every Time_Period value of a result is rendered in the requested representation, also next to a NULL of the other side of an outer join ----
+    rep.rule("R04.12", "apply_time_period_representation evaluated on a result with two Time_Period columns: the UPDATE's row filter selects every row in which ANY of them is not "
+                       "null (left/full joins leave the columns of the missing side NULL)")
+    from sa import sqlconc as _sc12, sqlexpr as _se12
+    from sa.e6 import ExternalObj as _EO12
+    ft = P.func("vtlengine.duckdb_transpiler.io._time_handling.apply_time_period_representation")
+
+    class _Rel12:
+        description = [("Id_1", "BIGINT"), ("Tp_1", "VARCHAR"), ("Tp_2", "VARCHAR")]
+
+    class _Conn12:
+        def __init__(self) -> None:
+            self.q: List[str] = []
+
+        def execute(self, q: str, *a: Any) -> Any:
+            self.q.append(q)
+            return _Rel12()
+    tp = _CV11("vtlengine.DataTypes.TimePeriod")
+    dsm = _EO12({"components": {"Id_1": _EO12({"name": "Id_1", "data_type": _CV11("vtlengine.DataTypes.Integer")}), "Tp_1": _EO12({"name": "Tp_1", "data_type": tp}),
+                                "Tp_2": _EO12({"name": "Tp_2", "data_type": tp})}})
+    n12 = 0
+    rep_vals = _I11(P).eval(ast.parse("list(_REPR_MACRO)", mode="eval").body, {}, ft)
+    for rv in rep_vals:
+        conn = _Conn12()
+        try:
+            _I11(P, max_steps=4000).call(ft, {"conn": conn, "table_name": "DS_r", "output_datasets": {"DS_r": dsm}, "output_scalars": {}, "representation": rv})
+        except (_R11, _U11) as e:
+            raise AnalysisError(f"R04.12: apply_time_period_representation outside the evaluator's language: {e}")
+        ups = [q for q in conn.q if q.strip().upper().startswith("UPDATE")]
+        if len(ups) != 1 or " WHERE " not in ups[0].upper():
+            n12 += 1
+            rep.instance("R04.12", f"representation/{rv}", nontrivial=True, sample={"updates": ups[:2]})
+            continue  # no row filter: every row is converted
+        where = ups[0][ups[0].upper().index(" WHERE ") + 7:]
+        try:
+            pred = _se12.parse(where)
+        except _se12.ParseError as e:
+            raise AnalysisError(f"R04.12: the UPDATE's row filter is outside the SQL evaluator's language: {e} [{where[:80]}]")
+        n12 += 1
+        rep.instance("R04.12", f"representation/{rv}", nontrivial=True, sample={"update": " ".join(ups[0].split())[:200]})
+        for a_, b_ in (("2020-Q1", None), (None, "2022-S1"), ("2020-Q1", "2022-S1")):
+            env = {"Tp_1": a_, '"Tp_1"': a_, "Tp_2": b_, '"Tp_2"': b_}
+            if _sc12.ev(pred, env, {}) is not True:
+                rep.add(Finding("R04.12", f"R04.12/row-filter/{rv}", ft.module.rel, ft.node.lineno, ft.qualname,
+                                f"a result row with Tp_1 = {a_!r}, Tp_2 = {b_!r} (what a left / full join leaves for a key missing on one side) is not selected by `WHERE {' '.join(where.split())[:90]}`: "
+                                f"its Time_Period value stays in the internal form (2020-Q1) instead of the requested representation"))
+                break
+    rep.floor("R04.12 representations", n12, 2)
     rep.assumptions = ["DuckDB join semantics for the emitted ON clause", "SQLBuilder.join writes `<keyword> JOIN` from its join_type argument (read from the source)"]
 
 
